@@ -292,7 +292,8 @@ pub fn catalogue(thorough: bool) -> Vec<Traj> {
 /// constant of the decoder, plus the gaps after which a CPR alias of the stale
 /// state is reached at this trajectory's speed
 pub fn gaps(tr: &Traj, thorough: bool) -> Vec<f64> {
-    let mut g: Vec<f64> = if thorough { vec![-0.3, 0.0, 0.4, 5.0, 9.9, 10.0, 10.1, 30.0, 179.9, 180.0, 180.1, 600.0, 86_400.0] } else { vec![-0.3, 0.0, 0.4, 9.9, 10.1, 30.0, 179.9, 180.1, 600.0] };
+    // negative gaps: neighbouring reports delivered in swapped order (after losses the two may be far apart in time)
+    let mut g: Vec<f64> = if thorough { vec![-0.3, 0.0, 0.4, 5.0, 9.9, 10.0, 10.1, 30.0, 179.9, 180.0, 180.1, 600.0, 86_400.0, -5.0, -30.0, -200.0] } else { vec![-0.3, 0.0, 0.4, 9.9, 10.1, 30.0, 179.9, 180.1, 600.0, -30.0] };
     if tr.kt > 0.0 {
         let h = tr.heading.to_radians();
         let vlat = (tr.kt * h.cos()).abs() / 3600.0 / NM_PER_DEG; // deg/s
@@ -319,7 +320,7 @@ fn explore_traj(tr: &Traj, min_len: usize, depth: usize, thorough: bool, core_on
     let tp = templates(0x4840d6);
     let mut gs = gaps(tr, thorough);
     if core_only {
-        gs.truncate(if thorough { 13 } else { 9 });
+        gs.truncate(if thorough { 16 } else { 10 });
     }
     let mut syms: Vec<Step> = Vec::new();
     for dt in &gs {
@@ -503,7 +504,7 @@ pub fn run(ctx: &Ctx, rep: &Report) {
     rep.trans(steps_total.load(Ordering::Relaxed) + 6 * pair_total.load(Ordering::Relaxed));
     rep.state(t);
     rep.nontriv(nontriv);
-    rep.set_bound(&format!("{} trajectories x all (gap, parity) histories of length <= {depth} over {}+ gaps incl. alias gaps and of length {} over the core gaps; {} x {} trajectory pairs x {} sequence pairs x 20 merge orders", cat.len(), if thorough { 13 } else { 9 }, depth + 1, sub.len(), sub.len(), seqs.len()));
+    rep.set_bound(&format!("{} trajectories x all (gap, parity) histories of length <= {depth} over {}+ gaps incl. alias gaps and of length {} over the core gaps; {} x {} trajectory pairs x {} sequence pairs x 20 merge orders", cat.len(), if thorough { 16 } else { 10 }, depth + 1, sub.len(), sub.len(), seqs.len()));
     if !thorough {
         rep.not_exhaustive("quick tier: 3 headings per start, 9 core gaps, depth 3 (4 on the core gaps)");
     }
